@@ -244,11 +244,22 @@ StaticWants ==
   { <<>>, <<<<9000, 9000>>>>, <<<<9000, 9002>>>>, <<<<9000, 9001>>, <<30000, 30000>>>> }
   \cup (IF Thorough THEN { <<<<9001, 9002>>>>, <<<<9002, 9002>>, <<9000, 9000>>>>,
                             <<<<9000, 9001>>, <<9001, 9002>>>>, <<<<30000, 30000>>>> } ELSE {})
+\* offered port sets that are unions of ranges with HOLES; static ranges that straddle a hole, lie inside one offered
+\* range, start or end at a hole's edge, lie in the hole: every port of a static range must be offered
+HolePorts == { <<<<9000, 9001>>, <<9003, 9004>>>>, <<<<9000, 9000>>, <<9002, 9002>>, <<9004, 9005>>>> }
+HoleStatics == { <<<<9000, 9004>>>>, <<<<9001, 9003>>>>, <<<<9003, 9004>>>>, <<<<9002, 9002>>>>, <<<<9000, 9002>>>>,
+                 <<<<9000, 9001>>, <<9003, 9003>>>>, <<<<9001, 9001>>, <<9003, 9004>>>>, <<<<9002, 9004>>>>, <<<<9000, 9000>>, <<9004, 9004>>>> }
+HoleCases ==
+  {[fn |-> "ResSatisfy",
+    res |-> [hascpu |-> TRUE, cpu |-> 1000, hasmem |-> TRUE, mem |-> 128, ports |-> p],
+    want |-> [cpu |-> 500, mem |-> 64, static |-> st, tcp |-> t, ipc |-> 0]] :
+     p \in HolePorts, st \in HoleStatics, t \in 0..1}
 FitCases ==
   {[fn |-> "ResSatisfy",
     res |-> [hascpu |-> s.hascpu, cpu |-> s.cpu, hasmem |-> s.hasmem, mem |-> s.mem, ports |-> p],
     want |-> [cpu |-> s.wcpu, mem |-> s.wmem, static |-> st, tcp |-> t, ipc |-> i]] :
      s \in Scalars, p \in PortOffers, st \in StaticWants, t \in 0..2, i \in 0..1}
+  \cup HoleCases
 ResOf(x) == [hascpu |-> x.hascpu, cpu |-> x.cpu, hasmem |-> x.hasmem, mem |-> x.mem,
              hasports |-> Len(x.ports) > 0, ports |-> PortSet(x.ports)]
 WantOf(w) == [cpu |-> w.cpu, mem |-> w.mem, static |-> PortSet(w.static), tcp |-> w.tcp, ipc |-> w.ipc]
@@ -410,7 +421,9 @@ P2Bad(offers, descs, accepts) ==
 HostOf(offers, accepts, i) == ById(offers, accepts[i].offer).host
 P3Bad(offers, descs, accepts) ==
   LET K == Known(offers, descs, accepts) IN
-  {<<"not-offered", TaskAt(accepts, ij).desc>> : ij \in
+  {<<IF \E p \in TaskPorts(TaskAt(accepts, ij)) \ PortSet(ById(offers, accepts[ij[1]].offer).ports) :
+          p \in PortSet(DescStatic(ById(descs, TaskAt(accepts, ij).desc)))
+       THEN "a static port that was not offered" ELSE "not-offered", TaskAt(accepts, ij).desc>> : ij \in
      {ij \in K : ~(TaskPorts(TaskAt(accepts, ij)) \subseteq PortSet(ById(offers, accepts[ij[1]].offer).ports))}}
   \cup {<<"repeated", TaskAt(accepts, ij).desc>> : ij \in
      {ij \in K : Cardinality(TaskPorts(TaskAt(accepts, ij))) # Len(TaskAt(accepts, ij).ports)}}
@@ -665,13 +678,45 @@ PortRoundCat ==
   {[offers |-> Pick(PortOfferCat, oi), descs |-> Pick(PortDescCat, di), exec |-> Exec1] :
      oi \in {<<1>>, <<2>>, <<3>>} \cup (IF Thorough THEN {<<1, 2>>, <<2, 3>>} ELSE {}), di \in IncSeqs(3, 3)}
 
+\* an offer whose ports have a HOLE (31005 is not offered) and templates whose static ranges straddle it, lie inside one
+\* offered range, end and start at its edges, lie in it, run into it
+HoleOffer == [id |-> "oG", host |-> "hG", attrs |-> [machine_id |-> "hG"], cpus |-> 4000, mem |-> 2048,
+              ports |-> <<<<31000, 31004>>, <<31006, 31012>>>>]
+GD(id, st) == [id |-> id, constraints |-> <<>>, cpu |-> 100, mem |-> 32, static_expr |-> st, tcp_inbound |-> 0, ipc_inbound |-> 0, controllable |-> TRUE]
+HoleDescCat == << GD("g1", "31001-31010"), GD("g2", "31002-31003"), GD("g3", "31004,31006"), GD("g4", "31005"), GD("g5", "31003-31006") >>
+HoleRoundCat ==
+  {[offers |-> <<HoleOffer>>, descs |-> Pick(HoleDescCat, di), exec |-> Exec1] : di \in IncSeqs(5, IF Thorough THEN 3 ELSE 2)}
+
+\* HISTORY over the class registry: deployments in ONE core between which the task template of a class CHANGES in the
+\* repository (versions[k] = the descriptors with the template as it is at deployment k): constraints only, inbound
+\* channel count only, both, cpu, static ports; one task role, and two roles of the same class.  Every deployment must be
+\* placed by the template of ITS version: each versions[k] is an ordinary round (also of RoundSpec).
+HD(id, cls, mt, n, cpu, st) ==
+  [id |-> id, class |-> cls, chain |-> << <<Ct("machine_type", mt)>>, <<>>, <<>> >>, cpu |-> cpu, mem |-> 32, static_expr |-> st,
+   tcp_inbound |-> n, ipc_inbound |-> 0, controllable |-> TRUE]
+HistOffers ==
+  << [id |-> "oX", host |-> "hX", attrs |-> [machine_id |-> "hX", machine_type |-> "flp"], cpus |-> 4000, mem |-> 2048,
+      ports |-> <<<<9000, 9009>>, <<30000, 30009>>>>],
+     [id |-> "oY", host |-> "hY", attrs |-> [machine_id |-> "hY", machine_type |-> "epn"], cpus |-> 4000, mem |-> 2048,
+      ports |-> <<<<9000, 9009>>, <<30000, 30009>>>>] >>
+Hist(vs) == [offers |-> HistOffers, versions |-> vs, exec |-> Exec1]
+HistoryCat ==
+  { Hist(<< <<HD("e1", "hA", "flp", 1, 100, "")>>, <<HD("e1", "hA", "epn", 1, 100, "")>>, <<HD("e1", "hA", "flp", 1, 100, "")>> >>),
+    Hist(<< <<HD("e1", "hB", "flp", 1, 100, "")>>, <<HD("e1", "hB", "flp", 2, 100, "")>>, <<HD("e1", "hB", "flp", 0, 100, "")>> >>),
+    Hist(<< <<HD("e1", "hC", "epn", 0, 100, "")>>, <<HD("e1", "hC", "flp", 2, 100, "")>> >>),
+    Hist(<< <<HD("e1", "hD", "flp", 1, 100, "")>>, <<HD("e1", "hD", "flp", 1, 300, "")>>, <<HD("e1", "hD", "epn", 1, 300, "")>> >>),
+    Hist(<< <<HD("e1", "hE", "flp", 0, 100, "")>>, <<HD("e1", "hE", "flp", 0, 100, "9005-9006")>>, <<HD("e1", "hE", "flp", 0, 100, "9007")>> >>),
+    Hist(<< <<HD("e1", "hF", "flp", 1, 100, ""), HD("e2", "hF", "flp", 1, 100, "")>>,
+            <<HD("e1", "hF", "epn", 2, 100, ""), HD("e2", "hF", "epn", 2, 100, "")>> >>) }
+HistoryRoundCat == UNION {{[offers |-> h.offers, descs |-> h.versions[k], exec |-> h.exec] : k \in 1..Len(h.versions)} : h \in HistoryCat}
+
 RoundCat ==
   {[offers |-> Pick(OfferCat, oi), descs |-> Pick(DescCat, di), exec |-> e] :
      oi \in IncSeqs(Len(OfferCat), 2), di \in IncSeqs(Len(DescCat), IF Thorough THEN 3 ELSE 2),
      e \in IF Thorough THEN {NoExec, Exec1} ELSE {Exec1}}
 
 RoundInit == /\ c = NoCase
-             /\ \E x \in RoundCat \cup SharedRoundCat \cup PortRoundCat : rd = RoundStart(x.offers, x.descs, x.exec)
+             /\ \E x \in RoundCat \cup SharedRoundCat \cup PortRoundCat \cup HoleRoundCat \cup HistoryRoundCat : rd = RoundStart(x.offers, x.descs, x.exec)
 RoundNext == ((\E oid \in Ids(rd.offers) : ProcessOffer(oid)) \/ Finish) /\ UNCHANGED c
 RoundSpec == RoundInit /\ [][RoundNext]_<<c, rd>>
 
